@@ -289,8 +289,14 @@ func instrumentPkg(repo, rel, pkgName, out string, replace map[string]string, fu
 					if rewriteCompare(x, info, fset, relName, off, add) {
 						used = true
 					}
+					if rewriteShortCircuit(x, info, fset, relName, off, add) {
+						used = true
+					}
 				case *ast.CallExpr:
 					if rewriteCall(x, info, pkgAlias, fset, relName, off, add) {
+						used = true
+					}
+					if rewriteSubtleValue(x, info, pkgAlias, fset, relName, off, add) {
 						used = true
 					}
 				}
@@ -405,6 +411,64 @@ func rewriteCompare(x *ast.BinaryExpr, info *types.Info, fset *token.FileSet, fi
 		return true
 	}
 	return false
+}
+
+// rewriteShortCircuit makes the evaluation of the right operand of && and || visible in the trace
+// (an implicit flow: `ok = ok && f(x[i])` stops calling f once ok is false).  Only plain bool operands.
+func rewriteShortCircuit(x *ast.BinaryExpr, info *types.Info, fset *token.FileSet, file string, off func(token.Pos) int, add func(int, int, string, bool)) bool {
+	if (x.Op != token.LAND && x.Op != token.LOR) || info == nil {
+		return false
+	}
+	if tv, ok := info.Types[x]; ok && tv.Value != nil {
+		return false // constant expression
+	}
+	plain := func(e ast.Expr) bool {
+		b, ok := info.TypeOf(e).(*types.Basic)
+		return ok && (b.Kind() == types.Bool || b.Kind() == types.UntypedBool)
+	}
+	if !plain(x.X) || !plain(x.Y) || !plain(x) {
+		return false
+	}
+	id := newSite(fset, file, x.OpPos, "short-circuit"+x.Op.String())
+	if x.Op == token.LAND {
+		add(off(x.OpPos)+2, 0, fmt.Sprintf(" verifrt.SC(%d) &&", id), false)
+	} else {
+		add(off(x.OpPos)+2, 0, fmt.Sprintf(" !verifrt.SC(%d) ||", id), false)
+	}
+	return true
+}
+
+var subtleValueFuncs = map[string]bool{"ConstantTimeByteEq": true, "ConstantTimeEq": true, "ConstantTimeSelect": true, "ConstantTimeLessOrEq": true}
+
+// rewriteSubtleValue wraps calls of crypto/subtle's single-value primitives so that each call is a trace event.
+func rewriteSubtleValue(c *ast.CallExpr, info *types.Info, alias map[string]string, fset *token.FileSet, file string, off func(token.Pos) int, add func(int, int, string, bool)) bool {
+	sel, ok := c.Fun.(*ast.SelectorExpr)
+	if !ok || !subtleValueFuncs[sel.Sel.Name] {
+		return false
+	}
+	id, ok := sel.X.(*ast.Ident)
+	if !ok {
+		return false
+	}
+	var path string
+	if info != nil {
+		if pn, ok := info.Uses[id].(*types.PkgName); ok {
+			path = pn.Imported().Path()
+		} else if info.Uses[id] != nil {
+			return false
+		}
+	}
+	if path == "" {
+		path = alias[id.Name]
+	}
+	if path != "crypto/subtle" {
+		return false
+	}
+	name := path + "." + sel.Sel.Name
+	site := newSite(fset, file, c.Pos(), name)
+	add(off(c.Pos()), 0, fmt.Sprintf("verifrt.CTV(%d, %q, ", site, name), false)
+	add(off(c.End()), 0, ")", true)
+	return true
 }
 
 // rewriteSwitch makes the comparisons of a string switch with non-constant cases visible:
